@@ -137,6 +137,7 @@ PROPS = {
                U("c08_advance_order", ["C08.V.advance.match_before_discount", "C08.V.advance.discount_regrets", "C08.V.advance.discount_average"]),
                U("c08_update_cum_strat", ["C08.V.update_cum_strat.vanilla", "C08.V.update_cum_strat.external", "C08.V.update_cum_strat.mutex"]),
                U("c08_external_recurse", ["C08.V.external.recurse"]),
+               U("c08_external_single_roles", ["C08.V.external_single.pass_roles", "C08.V.external_single.advance_flag", "C08.V.external_single.bounds_in_player_order", "C08.V.external_single.strategies_in_player_order"]),
                U("c08_recurse_regret_dispatch", ["C08.V.recurse_regret.terminal_sign", "C08.V.recurse_regret.chance_sampled", "C08.V.recurse_regret.active_enumerates", "C08.V.recurse_regret.external_sampled", "C08.V.recurse_regret.cache_hit"]),
                U("c08_recurse_player", ["C08.V.recurse_player.update"]),
                U("c08_recurse_single_player_arm", ["C08.V.recurse_single.player_arm"]),
